@@ -46,6 +46,7 @@ REQUIRED = {
     "lme_random_intercept_cohorts": 6,
     "lme_one_visit_subjects": 30,
     "lme_design_checks": 16,
+    "lme_balanced_complete_cohorts": 4,
 }
 ASSUMPTIONS = [
     "leaspy stores observations and ages in float32: the references are evaluated in float64 on the float32-rounded inputs; "
@@ -392,7 +393,7 @@ class _Recorder:
         return True
 
 
-def gen_lme_cohort(rng, n_sub, truth, prefix="S", one_visit_p=0.2, far=False):
+def gen_lme_cohort(rng, n_sub, truth, prefix="S", one_visit_p=0.2, far=False, balanced=None):
     import numpy as np
     import pandas as pd
 
@@ -400,6 +401,8 @@ def gen_lme_cohort(rng, n_sub, truth, prefix="S", one_visit_p=0.2, far=False):
     rows = []
     for s in range(n_sub):
         nv = 1 if rng.random() < one_visit_p else int(rng.integers(2, 9))
+        if balanced:
+            nv = int(balanced)  # balanced design: every subject has the same number of visits (no padding in the tensor form)
         start = float(rng.uniform(50, 85)) + (float(rng.choice([-40, 40])) if far else 0.0)
         ages = np.round(start + np.cumsum(rng.uniform(0.3, 3.0, size=nv)), 3)
         re = L @ rng.normal(size=2)
@@ -525,7 +528,11 @@ def _run_lme(spec, ctx):
         keep_nan = bool(rng.random() < 0.4)
         n_sub = int(rng.integers(5, 61))
         truth = lme_truth(rng, slope)
-        df = gen_lme_cohort(rng, n_sub, truth)
+        balanced = int(rng.integers(2, 7)) if (spec["k"] + i) % 5 == 0 else None
+        if balanced:
+            keep_nan = False
+            ctx.count("lme_balanced_complete_cohorts")
+        df = gen_lme_cohort(rng, n_sub, truth, balanced=balanced)
         if keep_nan:
             miss = rng.random(len(df)) < 0.15
             df.loc[miss, "Y"] = np.nan
@@ -707,6 +714,8 @@ def _run_lme(spec, ctx):
         if zero_ids:
             _no_observation_monitor(ctx, model, ds, zero_ids, k_re, dict(case, who="training"))
         train_route = ("dataset", "table", "permuted-dataset")[int(rng.integers(0, 3))]
+        if balanced:
+            train_route = "dataset"  # the very Dataset object the model was fitted on
         if train_route == "dataset":
             inp = ds if not zero_ids else Dataset(Data.from_dataframe(df_j, drop_full_nan=not keep_nan))
         elif train_route == "table" and not keep_nan:
